@@ -326,11 +326,18 @@ def cell_sweep(fc, cell, at):
             elif isinstance(tg, ast.Tuple) and len(tg.elts) == 2 and isinstance(it, ast.Call) and _src(it.func) == "enumerate" and len(it.args) == 1 \
                     and _src(tg.elts[1]) == layer_expr.id:
                 src_list = it.args[0]
+            trunc = False
+            if src_list is None and isinstance(tg, ast.Tuple) and len(tg.elts) == 2 and isinstance(it, ast.Call) and _src(it.func) == "zip" and \
+                    len(it.args) == 2 and not it.keywords and _src(tg.elts[1]) == layer_expr.id and isinstance(it.args[0], ast.Call) and \
+                    _src(it.args[0].func) == "range" and len(it.args[0].args) == 1:
+                # for _, layer in zip(range(n), X): the first n elements of X
+                src_list = it.args[1]
+                trunc = True
             if src_list is None:
                 return None
             lo = None
             base = src_list
-            derived = False
+            derived = trunc
             while True:
                 if isinstance(base, ast.Subscript) and isinstance(base.slice, ast.Slice):
                     if base is src_list and base.slice.upper is None and base.slice.step is None:
@@ -347,7 +354,7 @@ def cell_sweep(fc, cell, at):
                 return None
             loops.insert(0, m.ast)
             if derived:
-                layers = ("seq", src_list)
+                layers = ("seq", it if trunc else src_list)
             else:
                 layers = ("all",) if lo is None or _src(lo) == "0" else ("from", lo)
         else:
